@@ -114,6 +114,14 @@ func runTreeProp(c *Ctx, which string) {
 				c.sample(map[string]interface{}{"input": printable(doc), "roots": len(res.roots), "nodes": nodes, "streaming": stream})
 			}
 		}
+		if which == "spans" && len(doc) <= 1500 && idx%2 == 0 {
+			// the hypothesis of the block-half theorem drain_spans (C02): the RefDefSpansOK check never fails along the run
+			orc.Add("spanshyp\t"+hx(doc)+"\t"+blocksExt(doc)+"\t"+blocksFold(doc), "ok", func(got string) {
+				c.report("block-span-theorem-hypothesis-RefDefSpansOK-fails", doc, fam, got, func(x []byte) bool {
+					return c.drv.Ask1("spanshyp\t"+hx(x)+"\t"+blocksExt(x)+"\t"+blocksFold(x)) != "ok"
+				}, nil)
+			})
+		}
 		for _, r := range res.roots {
 			r := r
 			orc.Add("chk\t"+which+"\t"+hx(r.Source)+"\t"+wireRoot(r), "ok", func(got string) {
